@@ -112,6 +112,13 @@ func (c *Ctx) hijackWrappers() {
 			} else if len(ret.Results) == 2 && isNilExpr(info, ret.Results[1]) {
 				conv, _ = ret.Results[0].(*ast.CallExpr)
 			}
+			direct := conv != nil && len(conv.Args) == 1 && ast.Unparen(conv.Args[0]) == ast.Expr(site) // conv(underlying(...)): both results handed on
+			if len(ret.Results) == 1 && conv != nil && direct {
+				switch calleeShort(info, conv) {
+				case "ToBuiltinStatefulSet", "ToBuiltinStetefulsetList", "newHijackWatch":
+					okRet = true
+				}
+			}
 			if conv != nil && resID != nil && len(conv.Args) == 1 && fn.Term(conv.Args[0]).Key() == fn.Term(resID).Key() {
 				switch calleeShort(info, conv) {
 				case "ToBuiltinStatefulSet", "ToBuiltinStetefulsetList", "newHijackWatch":
